@@ -25,7 +25,7 @@ type LitCase struct {
 var litTemplates = []string{"select %s from t", "select * from t where a like %s", "insert into t (a) values (%s)", "update t set a = %s where b = 1"}
 
 // spelling segments; {q} stands for the doubled quote of the literal's own quote character
-var litSegments = []string{"a", "b", " ", "%", "_", "{q}", `\'`, `\"`, `\\`, `\n`, `\t`, `\0`, `\Z`, `\b`, `\r`, `\%`, `\_`, `\a`, `\N`, "é", "{other}", "1", "-"}
+var litSegments = []string{"a", "b", " ", "%", "_", "{q}", `\'`, `\"`, `\\`, `\\x`, `\\x41`, `\x`, `\X`, "x", `\n`, `\t`, `\0`, `\Z`, `\b`, `\r`, `\%`, `\_`, `\a`, `\N`, "é", "{other}", "1", "-"}
 
 func (c LitCase) spelling() string {
 	other := `"`
@@ -93,6 +93,42 @@ func mysqlString(s string) (val []byte, n int, ok bool) {
 	return nil, 0, false
 }
 
+// knownBackslashX models the one recorded deviation (known_findings.json, literal-meaning-changed:backslash-x):
+// acra's tokenizer keeps the escape \x / \X as two bytes when it is the first special character of the literal
+// (scanString, "specific case for postgresql"; the pinned sqlparser tests require '\x0102'::bytea to print back
+// unchanged in the default dialect) and the printer writes a leading `\x` of any value raw. Under MySQL's rules
+// the value gains a backslash for such an escape that is not at the start, and a value that starts with
+// backslash-x (spelled '\\x..') loses its backslash. It returns what the re-serialised literal denotes then.
+func knownBackslashX(lit string) []byte {
+	const mark = "\x00BSX\x00"
+	q := lit[0]
+	kept := ""
+	spelled := lit
+	for i := 1; i < len(lit); i++ {
+		if lit[i] == q {
+			break
+		}
+		if lit[i] == '\\' {
+			if i+1 < len(lit) && (lit[i+1] == 'x' || lit[i+1] == 'X') {
+				kept = lit[i : i+2]
+				spelled = lit[:i] + mark + lit[i+2:]
+			}
+			break
+		}
+	}
+	v, _, ok := mysqlString(spelled)
+	if !ok {
+		return nil
+	}
+	if kept != "" {
+		v = []byte(strings.Replace(string(v), mark, kept, 1))
+	}
+	if strings.HasPrefix(string(v), `\x`) {
+		v = v[1:]
+	}
+	return v
+}
+
 func litMeaningKept(c LitCase) (ok bool, detail string, vs hx.Vs) {
 	lit := c.spelling()
 	want, n, wellFormed := mysqlString(lit)
@@ -119,6 +155,9 @@ func litMeaningKept(c LitCase) (ok bool, detail string, vs hx.Vs) {
 	if !wellFormed {
 		return false, fmt.Sprintf("the printed literal is not a MySQL string: %q -> %q", sql, out), nil
 	}
+	if string(got) != string(want) && string(got) == string(knownBackslashX(lit)) {
+		return false, "known:" + fmt.Sprintf("literal %s denotes %q, after re-serialisation %q denotes %q (%q -> %q)", lit, want, out[i:], got, sql, out), nil
+	}
 	if string(got) != string(want) {
 		return false, fmt.Sprintf("literal %s denotes %q, after re-serialisation %q denotes %q (%q -> %q)", lit, want, out[i:], got, sql, out), nil
 	}
@@ -134,6 +173,10 @@ func CheckLiteral(c LitCase) (vs hx.Vs) {
 	}
 	if ok {
 		return nil
+	}
+	if strings.HasPrefix(detail, "known:") {
+		vs.Add("literal-meaning-changed:backslash-x", "%s", strings.TrimPrefix(detail, "known:"))
+		return vs
 	}
 	var bad []string
 	seen := map[string]bool{}
